@@ -7,6 +7,7 @@ import (
 	"fmt"
 	"mime"
 	"net/http"
+	"net/url"
 	"path"
 	"strconv"
 	"strings"
@@ -62,7 +63,9 @@ func (h *Handler) ServeHTTP(w http.ResponseWriter, r *http.Request) {
 			return
 		}
 
-		http.Redirect(w, r, principalPath, http.StatusPermanentRedirect)
+		// principalPath is a decoded path: escape it for the Location header
+		location := (&url.URL{Path: principalPath}).String()
+		http.Redirect(w, r, location, http.StatusPermanentRedirect)
 		return
 	}
 
